@@ -460,7 +460,7 @@ func c27Gen(g *Gen) {
 			case 0:
 				lines = append(lines, "parse "+XS(u))
 			case 1:
-				pfx := Pick(r, []string{"", "", "/vgi", "/api/v1", "/a", "/vgi"})
+				pfx := Pick(r, []string{"", "", "/vgi", "/api/v1", "/a", "/vgi", "/", ""})
 				lines = append(lines, fmt.Sprintf("origurl %s %s", XS(c27GenLocalURL(r, pfx)), XS(pfx)))
 			default:
 				if r.Chance(4) {
